@@ -665,6 +665,27 @@ def tie(ctx):
         if meta:
             ctx.sample({k: meta[0][k] for k in ("fields", "b", "batches", "seed", "perms")})
 
+        # --- one dataset object used for a long time: 130 epochs drawn from one object, against a twin
+        # that fast-forwards (anything that happens "every N epochs" shows only here)
+        for lr in range(2 if ctx.thorough else 1):
+            c = gen_file_case(ctx, tmp, 900000 + lr)
+            if c["n"] < 2 or c["b"] < 1:
+                continue
+            ctx.evaluated(3)
+            ctx.count("file:long-lived-object-130-epochs")
+            long_a = stream_text(make_dataset(c), 130)
+            tw = make_dataset(c)
+            tw.fastforward_epochs(104)
+            tail = stream_text(tw, 26)
+            desc = {"kind": "file", "fields": c["kinds"], "table": table_str(c["data"]), "b": c["b"], "batches": c["batches"], "seed": c["seed"], "epochs": 130}
+            if tail != long_a[104:]:
+                k = next(i for i, (x, y) in enumerate(zip(tail, long_a[104:])) if x != y)
+                divs.append(Divergence("impl.fastforward", dict(desc, check="fastforward", n=104, long_run=True), "epoch %d after fastforward_epochs(104): %s" % (104 + k, tail[k][:200]), "epoch %d of a dataset that consumed them: %s" % (104 + k, long_a[104 + k][:200])))
+            long_b = stream_text(make_dataset(c), 130)
+            if long_b != long_a:
+                k = next(i for i, (x, y) in enumerate(zip(long_b, long_a)) if x != y)
+                divs.append(Divergence("impl.determinism", dict(desc, check="nondeterministic", long_run=True), "epoch %d: %s" % (k, long_b[k][:200]), long_a[k][:200]))
+
         # --- scale probe: a file of more than 64 MiB (one int64 field of 9 million rows) — staging
         # buffers, chunked gathers and 32-bit offsets do not show on small files.  The batch lengths
         # are judged by the driver (`sizesOK`, C20_batch_lengths); that the rows are exactly the
